@@ -21,7 +21,7 @@ bash "$src/demo.sh" "$wt" >>$log 2>&1; demo_with=$?
 det=""
 mkdir -p /tmp/seedwt/v.$id; cp /verif/known_findings.json /tmp/seedwt/v.$id/
 for p in $(seq -w 1 19); do
-  /verif/bin/gvlint check -property C$p -repo "$wt" -verif /tmp/seedwt/v.$id > /tmp/seedwt/v.$id/out.C$p 2>&1; ec=$?
+  ${GVLINT:-/verif/bin/gvlint} check -property C$p -repo "$wt" -verif /tmp/seedwt/v.$id > /tmp/seedwt/v.$id/out.C$p 2>&1; ec=$?
   [ $ec -eq 1 ] && det="$det C$p"
   [ $ec -ge 2 ] && det="$det C$p(undecided)"
 done
